@@ -1,0 +1,21 @@
+//go:build verif
+
+// Machine-checked contracts for this package (comment-only; read by /verif/bin/vcgo).
+package meta
+
+// Documented names (C17): transcribed from the doc comments of the enum types (tools/gen_enum_contracts.py, reviewed).
+
+// meta/exifTypes.go  (ExposureProgram)
+//@ func ExposureProgram.String
+//@   props C17
+//@   pure
+//@   ensures [C17] ep == 0 ==> r0 == "Not Defined"
+//@   ensures [C17] ep == 1 ==> r0 == "Manual"
+//@   ensures [C17] ep == 2 ==> r0 == "Program AE"
+//@   ensures [C17] ep == 3 ==> r0 == "Aperture-priority AE"
+//@   ensures [C17] ep == 4 ==> r0 == "Shutter speed priority AE"
+//@   ensures [C17] ep == 5 ==> r0 == "Creative (Slow speed)"
+//@   ensures [C17] ep == 6 ==> r0 == "Action (High speed)"
+//@   ensures [C17] ep == 7 ==> r0 == "Portrait"
+//@   ensures [C17] ep == 8 ==> r0 == "Landscape"
+//@   ensures [C17] ep == 9 ==> r0 == "Bulb"
